@@ -35,12 +35,19 @@
    "r32chain"                               root32_chain of the current image -> "ok <c1,c2,..>" | "none" (broken root chain)
    "r32create <name> <y> <m> <d> <h> <mi> <s> <ms>" / "r32remove <name>" / "r32rename <src> <dst>"   vol32_root_create / _remove /
         _rename -> as ccreate / cremove / crename ("na": would grow / entry owns clusters / is a directory / broken root chain)
+   "r32grow <name> <y> <m> <d> <h> <mi> <s> <ms>"   create_file in the FAT32 root INCLUDING growth, in its own mount .. unmount bracket,
+        starting from the image of the LAST img / imgq (not from the current image, so it can follow an r32create of the same call):
+        VolFsInfo.vol32_mount (strict) reads the FS-info latch from the image ; Vol32Root.vol32_root_create_grow ;
+        VolFsInfo.vol32_flush_fs_info writes the FS-info sector back when the latch is dirty (what unmount does)
+        -> "ok <first> <last> | exists | err <Variant> | panic | fuel", " chain=<root chain after> fi=<free|->,<next|->,<dirty|clean>", digest
+        | "na" (broken root chain) | "nomount ..."
    "wf"                                     Spec/Wf.wf_issues (folding: Spec/WfFold.wf_fold with the loaded table) of the current
         image: "<count> <free clusters>: <Issue(..)> ..." *)
 open Conv
 
 let cur : Image.image ref = ref (Image.img_empty BinNums.N0)
 let stale = ref false
+let base : Image.image ref = ref (Image.img_empty BinNums.N0)     (* the image of the last img / imgq (r32grow starts from it) *)
 let chain : BinNums.coq_N list ref = ref []
 let fi : Table.fsinfo ref = ref { Table.fi_free = None; Table.fi_next = None; Table.fi_dirty = false }
 let opt_n (s : string) : BinNums.coq_N option = if s = "-" then None else Some (n_of_string s)
@@ -87,7 +94,7 @@ let line (t : string list) : string =
       | off :: hx :: r -> im := Image.img_write !im (n_of_string off) (bytes_of_hex hx); go r
       | _ -> () in
     go pages;
-    cur := !im; stale := false;
+    cur := !im; base := !im; stale := false;
     if cmd = "imgq" then "ok" else "ok " ^ digest ()
   | ["create"; name; y; m; d; h; mi; s; ms] ->
     (* mounted (Model/VolStatus.v): mount ; the operation with its status write ; unmount.  "mark<0|1>": the status byte was written *)
@@ -162,6 +169,21 @@ let line (t : string list) : string =
        pre (res_tag (fun o -> match o with
                               | None -> "exists"
                               | Some (p, q) -> Printf.sprintf "ok %s %s" (string_of_n p) (string_of_n q)) r ^ " " ^ digest ()))
+  | ["r32grow"; name; y; m; d; h; mi; s; ms] ->
+    (match VolFsInfo.vol32_mount true !base with
+     | Base.Ok (fi0, _) ->
+       (match Vol32Root.vol32_root_create_grow upper oem !base fi0 (name_of_hex name) (M_c18.mkdt y m d h mi s ms) with
+        | None -> stale := true; "na"
+        | Some (r, ((im, fi'), l')) ->
+          let (im2, _) = VolFsInfo.vol32_flush_fs_info (Abs.parse_geom im) im fi' in
+          cur := im2; stale := false;
+          res_tag (fun o -> match o with
+                            | None -> "exists"
+                            | Some (p, q) -> Printf.sprintf "ok %s %s" (string_of_n p) (string_of_n q)) r
+          ^ " chain=" ^ String.concat "," (Stdlib.List.map string_of_n l')
+          ^ " fi=" ^ opt_s fi'.Table.fi_free ^ "," ^ opt_s fi'.Table.fi_next ^ "," ^ (if fi'.Table.fi_dirty then "dirty" else "clean")
+          ^ " " ^ digest ())
+     | r -> "nomount " ^ res_tag (fun _ -> "ok") r)
   | ["r32remove"; name] ->
     (match Vol32Root.vol32_root_remove upper oem !cur (name_of_hex name) with
      | None -> stale := true; "na"
